@@ -100,6 +100,13 @@ func build(entries []entry, scale int, prefix string, declaredBy map[string]int6
 				addRaw(w, name, data, uint64(e.Declared*scale))
 				declaredBy[filepath.Join(prefix, filepath.FromSlash(name))] = int64(e.Declared * scale)
 			}
+		case "repeat":
+			// the same name twice: one unit first, then the entry of the model (three units) which replaces it
+			name := fmt.Sprintf("%sr%d-%d.txt", dir, level, i)
+			addRaw(w, name, bytes.Repeat([]byte{'r'}, scale), uint64(scale))
+			data := bytes.Repeat([]byte{'R'}, e.Actual*scale)
+			addRaw(w, name, data, uint64(e.Declared*scale))
+			declaredBy[filepath.Join(prefix, filepath.FromSlash(name))] = int64(e.Declared * scale)
 		case "dirchain":
 			// explicit directory entries and nothing in them: q<i>-0/, q<i>-0/q<i>-1/, ...
 			chain := ""
